@@ -97,6 +97,18 @@ def run(ctx: Ctx) -> dict:
         for w in gen.SPACES:
             for p in range(len(t) + 1):
                 ops.append({"op": "variants", "kind": kind, "t": t, "u": t[:p] + [w] + t[p:]})
+    # white space in EVERY gap and at both ends (as many separate runs as the text allows), single and
+    # doubled, for one IBAN of every country - the longest ones have more than 32 runs - and for BICs
+    for row in rows:
+        t = cps(gen.valid_iban(row, rng, "letters"))
+        for reps in ((1, 2) if not ctx.quick or len(t) >= 30 else (1,)):
+            w = rng.choice(gen.SPACES) if reps == 2 else 32
+            u = [w] * reps
+            for c in t:
+                u += [c] + [w if rng.random() < 0.7 else rng.choice(gen.SPACES)] * reps
+            ops.append({"op": "variants", "kind": "iban", "t": t, "u": u})
+    for s in ("GENODEM1GLS", "DEUTDEFF"):
+        ops.append({"op": "variants", "kind": "bic", "t": cps(s), "u": cps(" " + " ".join(s) + " ")})
     # characters that are NOT white space must not be ignored (zero width space, BOM, NUL ...)
     events = calls.execute(ctx, ops, "c10")
     for e in events:     # the flags must cover both texts
